@@ -177,6 +177,36 @@ def run_mixture(tier, seed, stop_first=True):
             fails.append(dict(signature='c13:mixture', what=f, input=dict(fn='mixture', t=t, seed=seed)))
             if stop_first:
                 break
+    # exact-zero mixture weights and points far in the tails: logpdf must stay the log of the weighted sum of the component
+    # densities (a zero-weight component contributes nothing, however close the point is to it)
+    for (means, w, cov, pts) in ((np.array([0.0, 10.0]), np.array([1.0, 0.0]), 1.0, np.array([10.0, 9.0, -9.5, 0.3])),
+                                 (np.array([[0.0, 0.0], [9.0, -9.0], [1.0, 1.0]]), np.array([2.0, 0.0, 1.0]), np.diag([1.0, 0.5]), np.array([[9.0, -9.0], [8.5, -8.0], [0.2, 0.1]])),
+                                 (np.array([-3.0, 4.0, 30.0]), np.array([0.0, 1.0, 0.0]), 0.7, np.array([30.0, -3.0, 4.0, 17.0]))):
+        cases += 2
+        nontriv += 2
+        wn = w / w.sum()
+        try:
+            with native.time_limit(10):
+                lg = np.asarray(GM.logpdf(pts, means, cov=cov, weights=w), float)
+                pd = np.asarray(GM.pdf(pts, means, cov=cov, weights=w), float)
+            comp = np.array([ss.multivariate_normal.logpdf(pts, mean=means[k], cov=cov) for k in range(len(wn)) if wn[k] > 0])
+            lw = np.log(np.array([x for x in wn if x > 0]))[:, None]
+            mx = (comp + lw).max(axis=0)
+            ref = mx + np.log(np.exp(comp + lw - mx).sum(axis=0))        # log of the weighted sum over the positively weighted components
+            ok = np.isfinite(ref)
+            bad = ok & ~np.isclose(lg, ref, rtol=1e-9, atol=1e-9)
+            under = ~ok | (pd == 0)        # where the density underflows, log(pdf) = -inf is what log-of-the-weighted-sum gives in floats
+            bad = bad & ~(np.isneginf(lg) & under)
+            if np.any(bad):
+                i = int(np.argmax(bad))
+                fails.append(dict(signature='c13:mixture', what='logpdf %.6g is not the log of the weighted sum of component densities %.6g (zero-weight component near the point)' % (lg[i], ref[i]),
+                                  input=dict(fn='mixture-zero-weight', means=np.asarray(means).tolist(), w=w.tolist())))
+                if stop_first:
+                    break
+        except native.NativeTimeout:
+            pass
+        except Exception as e:
+            fails.append(dict(signature='c13:mixture', what='%s: %s' % (type(e).__name__, e), input=dict(fn='mixture-zero-weight', seed=seed)))
     # a constraint with a very low acceptance rate: the sampler must still return exactly `size` valid points
     for t in range(2 if tier == 'quick' else 6):
         cases += 1
